@@ -57,7 +57,9 @@ func Mixin(primary *spec.Swagger, mixins ...*spec.Swagger) []string {
 	opIDs := getOpIDs(primary)
 	initPrimary(primary)
 
+	verifEmit("mixin.start", primary, strconv.Itoa(len(mixins)))
 	for i, m := range mixins {
+		verifEmit("mixin.doc", m, strconv.Itoa(i))
 		skipped = append(skipped, mergeSwaggerProps(primary, m)...)
 
 		skipped = append(skipped, mergeConsumes(primary, m)...)
